@@ -4,7 +4,8 @@
 #   * shape guards: the fragments of handle_conn / handle_conn_err / handle_backend that
 #     lean/UmModel/BackendConn.lean transliterates must still have the shape that was read
 #     (retry threshold `>=`, timeout passes Some(MAX_BACKEND_RETRY), failed connect answers the
-#     retry tasks with Canceled and the queued tasks with an error reply for one second).
+#     retry tasks with Canceled and the queued tasks with an error reply for one second, the
+#     connection-lifetime retry count of the F08b fix).
 
 
 def gen_backend_consts():
@@ -21,11 +22,27 @@ def gen_backend_consts():
         raise ExtractError(f"{p}: handle_conn: the timeout path no longer passes Some(MAX_BACKEND_RETRY)")
     if conn.count("handle_conn_err(retry_times_opt, failed_tasks, &err)") != 2:
         raise ExtractError(f"{p}: handle_conn: expected two handle_conn_err(retry_times_opt, ..) calls (write, read)")
-    if not re.search(r"let\s+retry_times_opt\s*=\s*match\s+retry_state_opt\.take\(\)", conn) or \
-       conn.index("let retry_times_opt") < conn.index("poll_fn"):
-        raise ExtractError(f"{p}: handle_conn: retry_times_opt is no longer computed per poll from "
-                           "retry_state_opt.take() (F08b fix applied?): UmModel/BackendConn.lean `retryTimes` "
-                           "and C08_retry_unbounded must be updated")
+    # F08b fix (commit 0e64416): the retry count lives as long as the connection (declared before
+    # poll_fn, set when the inherited RetryState is taken) and is cleared only when a reply leaves the
+    # task queue empty.  Any other shape (in particular the old per-poll `let retry_times_opt = match
+    # retry_state_opt.take()`) breaks the tie: UmModel/BackendConn.lean `retryTimes` and
+    # C08_retry_bounded depend on it.
+    pf = conn.find("poll_fn")
+    decl = re.search(r"let\s+mut\s+retry_times_opt\s*:\s*Option<usize>\s*=\s*None\s*;", conn)
+    if pf < 0 or not decl or decl.start() > pf:
+        raise ExtractError(f"{p}: handle_conn: `let mut retry_times_opt: Option<usize> = None;` is not declared "
+                           "before poll_fn (F08b fix 0e64416 missing or reshaped)")
+    if re.search(r"let\s+retry_times_opt\s*=", conn):
+        raise ExtractError(f"{p}: handle_conn: retry_times_opt is computed per poll again (F08b regression)")
+    assigns = re.findall(r"retry_times_opt\s*=\s*([^;=]+);", conn[pf:])
+    if sorted(a.strip() for a in assigns) != ["None", "Some(retry_times)"]:
+        raise ExtractError(f"{p}: handle_conn: unexpected assignments to retry_times_opt: {assigns}")
+    if not re.search(r"if\s+let\s+Some\(RetryState\s*\{[^}]*\}\)\s*=\s*retry_state_opt\.take\(\)", conn):
+        raise ExtractError(f"{p}: handle_conn: the inherited RetryState is no longer taken with `if let`")
+    m_reset = re.search(r"handler\.handle_task\(task,\s*packet_res\);\s*if\s+tasks\.is_empty\(\)\s*\{\s*"
+                        r"retry_times_opt\s*=\s*None;\s*\}", conn)
+    if not m_reset:
+        raise ExtractError(f"{p}: handle_conn: the count is no longer cleared exactly when a reply empties `tasks`")
     if not re.search(r"if\s+!task_empty\s*&&\s*!response_received", conn):
         raise ExtractError(f"{p}: handle_conn: timeout condition changed")
     back = fn_body(t, "handle_backend", p)
